@@ -1598,12 +1598,18 @@ impl StreamingQueueCompressor {
             if need_sync {
                 // Reached synchronization point (every 50 contigs GLOBALLY)
                 // C++ AGC does: cnt_contigs_in_sample = 0; --sample_priority;
+                // Take the new priority from the global counter so that priorities never
+                // increase over the push sequence (a later sample must not get a priority
+                // that is >= the priority of a sync round that is still queued).
+                let new_priority = {
+                    let mut next_p = self.next_priority.lock().unwrap();
+                    let priority = *next_p;
+                    *next_p -= 1;
+                    priority
+                };
                 if let Some(priority) = priorities.get_mut(&sample_name) {
-                    *priority -= 1;
+                    *priority = new_priority;
                 }
-
-                // Get the NEW priority (after decrement) for sync tokens
-                let new_priority = *priorities.get(&sample_name).unwrap();
 
                 // Drop locks before inserting sync tokens to avoid deadlock
                 drop(priorities);
@@ -1624,10 +1630,14 @@ impl StreamingQueueCompressor {
                         sample_name: sample_name.clone(),
                         contig_name: String::from("<SYNC>"),
                         data: Vec::new(),
-                        // Use large priority boost to ensure sync tokens are processed BEFORE any contigs
-                        // With +1, contigs with same priority but higher cost were being popped first
-                        // This caused barrier deadlock when some workers exited before others got sync tokens
-                        sample_priority: new_priority + 1_000_000,
+                        // C++ AGC rule (EmplaceManyNoCost with the current sample_priority): the
+                        // tokens carry the priority of the contigs pushed so far and cost 0, so they
+                        // are pulled after every contig queued before them (same or higher priority,
+                        // larger cost / earlier sequence) and before every contig pushed afterwards
+                        // (strictly lower priority). A boost above the queued contigs lets the tokens
+                        // overtake them, which makes the batch composition (and the archive bytes)
+                        // depend on timing, and `+ 1_000_000` overflows i32 near i32::MAX.
+                        sample_priority: current_priority,
                         cost: 0,
                         sequence,
                         is_sync_token: true,
@@ -1675,7 +1685,9 @@ impl StreamingQueueCompressor {
                                 sample_name: sample_name.clone(),
                                 contig_name: String::from("<SYNC>"),
                                 data: Vec::new(), // Empty data for sync token
-                                sample_priority: sample_priority + 1_000_000, // Much higher priority than any contigs
+                                // Between the previous sample's contigs (priority >= sample_priority + 1)
+                                // and this sample's contigs (priority sample_priority); cannot overflow
+                                sample_priority: sample_priority + 1,
                                 cost: 0, // No cost for sync tokens
                                 sequence,
                                 is_sync_token: true,
